@@ -120,7 +120,7 @@ def effective_rows(rows):
 
 
 def gen(rng, prop=None):
-    entry = rng.choice(["us", "us", "jp", "es", "ie", "generic"])
+    entry = rng.choice(["us", "us", "jp", "es", "ie", "generic"]) if prop != "C20" else "jp"
     facts = country_facts(entry)
     n_assets = rng.randint(1, 3) if prop != "C17" else rng.randint(2, 3)
     assets = {}
@@ -133,6 +133,8 @@ def gen(rng, prop=None):
         assets[a] = rows
         cfee[a] = {}
         for r in rows:
+            if prop == "C20":
+                break
             if r[0] == "IN" and rng.random() < 0.25 and r[7] > 10**6:
                 cfee[a][str(r[1])] = rng.choice([1, 10**5, r[7] // 1000 or 1])
                 r[8] = None
@@ -170,6 +172,10 @@ def gen(rng, prop=None):
         case["fault"] = rng.choice(FAULTS)
         if case["fault"] == "asset-without-sheet":
             case["only"] = None
+    if prop == "C20":
+        # rp2_jp end to end in each language it ships templates for (kl = the test locale, every string prefixed): no from+to (finding F8)
+        case["lang"] = rng.choice([None, "en", "kl", "kl"] if "kl" in facts["langs"] else [None, "en"])
+        case["from"] = None          # the oracle's expectation is written for to-date windows (as in the reports stream)
     if prop == "C17":
         case["variant"] = rng.choice(["hashseed", "hashseed", "stale-output", "single-asset", "single-asset", "repeat", "permuted", "permuted"])
         if case["variant"] == "single-asset" and len(facts["methods"]) > 1 and rng.random() < 0.7:
@@ -421,7 +427,49 @@ def collect(case, d, res):
     r["_a2c"] = a2c
     names = list(a2c)
     lang = case["lang"] or country_facts(case["entry"])["default_lang"]
-    r["content_checked"] = lang in ("en", "en_IE", "ja")
+    r["content_checked"] = lang in ("en", "en_IE", "ja", "kl")
+    import odsread
+    odsread.STRIP = "__test_" if lang == "kl" else None      # the test locale prefixes every translated string (sheet names, labels, types)
+    try:
+        return _collect_files(case, out, files, names, a2c, r)
+    finally:
+        odsread.STRIP = None
+
+
+SHEETREF = re.compile(r"'([^']+)'\.\$?[A-Za-z]+\$?\d+|HYPERLINK\(\"#([^\"]+?)\.[a-z]+\d+")
+
+
+def dangling_refs(path):
+    """cross-sheet references (formulas and hyperlinks) that name a sheet the file does not have — on the raw names, whatever the language"""
+    import odsread
+    keep, odsread.STRIP = odsread.STRIP, None
+    try:
+        sheets = read_ods(path)
+    finally:
+        odsread.STRIP = keep
+    have = {n for n, _ in sheets}
+    bad = []
+    for n, rows in sheets:
+        for row in rows:
+            for c in row:
+                if c and c[0] == "formula":
+                    for m in SHEETREF.finditer(c[1]):
+                        t = m.group(1) or m.group(2)
+                        if t.startswith("'") and t.endswith("'"):
+                            t = t[1:-1]
+                        if t not in have and t not in bad:
+                            bad.append(t)
+    return bad
+
+
+def _collect_files(case, out, files, names, a2c, r):
+    for f in files:
+        if f.endswith(".ods"):
+            try:
+                for t in dangling_refs(os.path.join(out, f)):
+                    r["rows"].append(["DANGLING", f, t])
+            except Exception:
+                pass
     for f in files:
         p = os.path.join(out, f)
         if not f.endswith(".ods"):
@@ -686,6 +734,9 @@ def oracle_c19(case, res, guard=True):
     """links in the real full report, followed through the parser's fee split: a lot cell must lead to the In-Flow row of that lot"""
     if res["exit"] != 0 or "_full" not in res:
         return None
+    for r in res["rows"]:
+        if r[0] == "DANGLING" and r[1].endswith("rp2_full_report.ods"):
+            return f"{r[1]}: a link or formula refers to sheet {r[2]!r}, which the file does not have"
     kind = {}
     for a in res["_a2c"]:
         for r in with_cfee(case, a):
@@ -921,7 +972,25 @@ def oracle_c15(case, res, guard=True):
     return None
 
 
-ORACLES = {"C02": oracle_c02, "C15": oracle_c15, "C12": oracle_c12, "C13": oracle_c13, "C16": oracle_c16, "C17": oracle_c17, "C18": oracle_c18, "C19": oracle_c19}
+def oracle_c20(case, res, guard=True):
+    """the Japanese report written by the real rp2_jp run (any language): sheets = asset-years with transactions, rows, chained references
+    that name an existing sheet (the reports-stream oracle on the file read back)"""
+    if case.get("fault") is not None or case["entry"] != "jp" or res["exit"] != 0 or not res.get("content_checked", True):
+        return None
+    names = [case["only"]] if case["only"] else list(case["assets"])
+    rc = {"which": "jp", "assets": {a: effective_rows(case["assets"][a]) for a in names}, "from": case["from"], "to": case["to"]}
+    for r in res["rows"]:
+        if r[0] == "DANGLING" and r[1].endswith("tax_report_jp.ods"):
+            return f"{r[1]}: a formula refers to sheet {r[2]!r}, which the file does not have"
+    js = [r for r in res["rows"] if r[0] == "JS"]
+    known = {r[1] for r in js}
+    for r in js:
+        if r[2] != "-" and r[2].split(":")[0] not in known:
+            return f"{r[1]}: the opening balance refers to sheet {r[2].split(':')[0]!r}, which is not in the file (sheets {sorted(known)})"
+    return R.oracle_c20(rc, {"status": "ok", "rows": [r for r in res["rows"] if r[0] in ("JS", "JR")]}, guard)
+
+
+ORACLES = {"C20": oracle_c20, "C02": oracle_c02, "C15": oracle_c15, "C12": oracle_c12, "C13": oracle_c13, "C16": oracle_c16, "C17": oracle_c17, "C18": oracle_c18, "C19": oracle_c19}
 
 
 def shrink_candidates(case):
